@@ -126,6 +126,7 @@ type FCtx struct {
 	pureFacts    []string
 	seenDef      map[string]bool // names already defined/assigned (anchors of named asserts)
 	anchored     map[string]bool // named asserts that found their anchor
+	panicStates  []*State        // states at the points where a defer-recover function may panic
 	ctxSuffixOf  map[string]string
 	cacheParent  map[string]string
 	cacheN       int
@@ -180,6 +181,12 @@ func (fc *FCtx) obligeNamed(st *State, name, kind, goal, clause string, pos toke
 // panicCheck: obligation that cond holds (otherwise the Go runtime panics), unless may_panic.
 func (fc *FCtx) panicCheck(st *State, what, cond string, pos token.Pos) {
 	if fc.mayPanic {
+		if fc.recoverLit != nil && !fc.inRecover && cond != "true" {
+			// a defer-recover function: the panicking branch is one of the states the recover handler starts from
+			ps := st.clone()
+			ps.assume(and(append(append([]string{}, fc.guards...), not(cond))...))
+			fc.panicStates = append(fc.panicStates, ps)
+		}
 		st.assume(implies(and(fc.guards...), cond))
 		return
 	}
